@@ -60,6 +60,7 @@ Definition ap_axis (m : pmode) (d : direction) (shape : list nat) (W : list (lis
            (n_rhs : nat) (off : Z) (lhs : list T) : outcome (list T) :=
   let n := nth ax shape 0%nat in
   let nl := Z.of_nat n in let nr := Z.of_nat n_rhs in
+  if size_guard_before_skip && illegal_size m nr then ValueErr else
   if padding_skipped nl nr then Ok lhs else
   let pl := n_pad_l off nl nr in let pr := n_pad_r off nl nr in
   if illegal_size m nr || illegal_padlen m pl nr || illegal_padlen m pr nr then ValueErr else
